@@ -44,7 +44,7 @@ func B01(b bool) string {
 
 // Tokens is a small vocabulary of fragments that reach decoder branches.
 var Tokens = []string{
-	"%", "+", "%4", "%41", "%zz", "%2", "%25", "%u0041", "%u00", "%uFF01", "%U0041", "%u", "%00", "%2b", "%2B", "%C3%A9",
+	"%", "+", "%4", "%41", "%zz", "%2", "%25", "%u0041", "%u00", "%uFF01", "%U0041", "%u", "%u2019", "%uff1c", "%u00e9", "%uFF5E", "%u0131", "%u00A", "%u%41", "%u+", "%U00C", "%u212a", "%00", "%2b", "%2B", "%C3%A9",
 	" ", "  ", "\t", "\n", "\r", "\f", "\v", "\x00", "\x00\x00", "\xa0", "\x85", "\xc2\xa0", "\xc2\x85",
 	"\\", "\\x41", "\\x4", "\\x", "\\u0041", "\\u00", "\\101", "\\1", "\\8", "\\n", "\\\\", "\\\"", "\\'", "\\0", "\\a", "\\xzz", "\\uzzzz", "\\377", "\\400",
 	"&", "&#", "&#x", "&#x41;", "&#65;", "&#65", "&lt;", "&lt", "&amp;", "&nLl;", "&nbsp;", "&quot;", "&#0;", "&#x110000;",
